@@ -314,6 +314,20 @@ def _decision(run: Run, ctx, fi: FuncInfo, roles, domain, ops, spec, rule: str) 
         raise AnalysisError(f"{fi.name}: operand type variables not recognised ({role_of})")
     bad = []
     n_points = 0
+    m = run.model
+
+    def resolve(call: ast.Call):
+        f = call.func
+        if isinstance(f, ast.Name):
+            tgt = m.lookup_target(m.resolve_dotted(fi.module, fi, f.id))
+            return (tgt, 0) if isinstance(tgt, FuncInfo) else None
+        if isinstance(f, ast.Attribute) and isinstance(f.value, ast.Name) and fi.cls is not None and f.value.id == fi.pos_params[0]:
+            g = m.find_method(fi.cls, f.attr)
+            if g is not None and g.name != "lookup_type":
+                return g, (0 if "staticmethod" in g.decorators else 1)
+        return None
+
+    _RESOLVE[0] = resolve
     for l, r, op in itertools.product(domain, domain, ops):
         env = {}
         for var, role in role_of.items():
@@ -366,6 +380,42 @@ def _test(e: ast.AST, env, op) -> bool:
     raise _Unsupported(ast.unparse(e))
 
 
+_RESOLVE = [None]
+
+
+def _eval_helper(g: FuncInfo, skip: int, vals, op):
+    """a helper that maps operand types to the result type: (kind, value) with kind in {'type', 'raise'}"""
+    params = g.pos_params[skip:]
+    if len(params) != len(vals):
+        raise _Unsupported(f"call of {g.name} with {len(vals)} arguments")
+    env = dict(zip(params, vals))
+
+    def go(body):
+        for s in body:
+            if isinstance(s, ast.Expr) and isinstance(s.value, ast.Constant):
+                continue
+            if isinstance(s, ast.If):
+                r = go(s.body if _test(s.test, env, op) else s.orelse)
+                if r is not None:
+                    return r
+                continue
+            if isinstance(s, ast.Return):
+                return ("type", _const_type(s.value, env)) if s.value is not None else ("type", "None")
+            if isinstance(s, ast.Raise):
+                exc = s.exc.func if isinstance(s.exc, ast.Call) else s.exc
+                return ("raise", ast.unparse(exc))
+            if isinstance(s, ast.Assign) and len(s.targets) == 1 and isinstance(s.targets[0], ast.Name):
+                env[s.targets[0].id] = _const_type(s.value, env)
+                continue
+            raise _Unsupported(ast.unparse(s)[:60])
+        return None
+
+    r = go(g.node.body)
+    if r is None:
+        raise _Unsupported(f"{g.name} may fall off its end")
+    return r
+
+
 def _run_body(body, env, op, selfname):
     for s in body:
         if isinstance(s, ast.If):
@@ -382,6 +432,19 @@ def _run_body(body, env, op, selfname):
             if isinstance(tg, ast.Subscript) and ast.unparse(tg.value) == f"{selfname}._found_types":
                 return _const_type(s.value, env)
             if isinstance(tg, ast.Name):
+                if isinstance(s.value, ast.Call) and _RESOLVE[0] is not None and not s.value.keywords:
+                    got = _RESOLVE[0](s.value)
+                    if got is not None:
+                        try:
+                            vals = [_const_type(a, env) for a in s.value.args]
+                        except _Unsupported:
+                            vals = None
+                        if vals is not None:
+                            kind, v = _eval_helper(got[0], got[1], vals, op)
+                            if kind == "raise":
+                                return v
+                            env[tg.id] = v
+                            continue
                 try:
                     env[tg.id] = _const_type(s.value, env)
                 except _Unsupported:
